@@ -450,6 +450,19 @@ def handle_failure(pid, j, workdir):
         d = parse_replay(crashf)
         d, calls, ok = minimise_crash(exe, spec, d, workdir)
         src = 'process died (crash/assert/sanitizer/hang); minimised by subprocess delta debugging in %d replays' % calls
+    elif j['mode'] in ('rc', 'enum') and j.get('rc') not in (0, 1, 2, None) and not j.get('_journalled'):
+        # the worker died without being able to dump its case (smashed stack, SIGKILL...): run it again, this time
+        # journalling every case before it starts, and take the last one
+        j['_journalled'] = True
+        jf = j['out'] + '.journal'
+        try:
+            subprocess.run(j['cmd'] + ['--journal', jf], stdout=subprocess.DEVNULL, stderr=subprocess.DEVNULL, env=run_env(j['spec']),
+                           timeout=j['timeout'])
+        except subprocess.TimeoutExpired:
+            pass
+        if os.path.exists(jf) and not os.path.exists(crashf):
+            shutil.copy(jf, crashf)
+        return handle_failure(pid, j, workdir)
     else:
         tail = ''
         try:
